@@ -600,8 +600,9 @@ func checkFanout(c *Ctx, cfg fanoutCfg) {
 	if cfg.Prop == "C10" {
 		r.Rule("C10.Q2-atomic-exit", "queue processor: no unlock between 'queue empty' and release of the running token (shared with C06)", 2)
 		r.Rule("C10.Q3-execute", "queue processor: Pop in the critical section that re-checked the head (shared with C06)", 2)
-		r.Rule("C10.Q6-enqueue", "queue processor: Enqueue replaces by key and always tries to start the loop (shared with C06)", 3)
+		r.Rule("C10.Q6-enqueue", "queue processor: Enqueue replaces by key, always tries to start the loop, stays silent towards a running loop only if the head is unchanged (shared with C06)", 4)
 		r.Rule("C10.Q5-not-early", "queue processor: execute only when due (shared with C06)", 2)
+		r.Rule("C10.Q7-order", "queue processor: heap ordered by the scheduled instant (shared with C06)", 1)
 		r.Rule("C10.Q8-signals", "queue processor: token channel capacities and reset handling (shared with C06)", 4)
 	}
 	r.Rule(pre+".M2-departure-release", "sends into subscriber buffers under the lock select on a channel closed by the departing forwarder before it takes the lock", 1)
@@ -1293,6 +1294,7 @@ func c10QueueRules(c *Ctx) {
 	c06Enqueue(c, ro)
 	c06NotEarly(c, ro)
 	c06Signals(c, ro)
+	c06Order(c, ro)
 }
 
 // ---------------------------------------------------------------- M6
